@@ -31,10 +31,11 @@ structure Stmt where
   ts : Nat
   size : Nat
   actor : Nat
+  named : Bool := false   -- the format string has named placeholders (the sink is handed key/value pairs)
   deriving Repr, Inhabited
 
 inductive Ev
-  | write (sink id lvl ts : Nat)
+  | write (sink id lvl ts : Nat) (named : Bool)
   | wthrow (sink id : Nat)
   | flushed (sink : Nat)
   | fthrow (sink : Nat)
